@@ -754,6 +754,8 @@ package avro
 //@   loop 1 invariant dsz(codec) == rtypesz(rtyp)
 //@   loop 1 decreases inlen() - inpos()
 //@   loop 2 invariant wfIn() && 0 <= i && tlen() >= 1 && lastNotFailedCB() && tkind(tlen()-1) != evRV
+//     exactly the declared number of records per block: i records have been decoded since the block was decompressed
+//@   loop 2 invariant [C07] (count >= 0 ==> i <= count) && i < 1<<61 && 3*i + 1 <= tlen() && tkind(tlen() - 1 - 3*i) == evENC
 //@   loop 2 invariant br != nil && wfRBS(br) && inlen() - inpos() < loopdec(1)
 //@   loop 2 invariant rtyp != nil && rawalloc(p, rtypesz(rtyp)) && codec != nil && wfc(codec) && dsz(codec) == rtypesz(rtyp) && 0 <= dsz(codec)
 //@   loop 2 decreases count - i
